@@ -392,6 +392,7 @@ fn v2_views(h: &v2::Header) -> Value {
         put("alen", guard(|| json!(h.addresses.len())))?;
         put("aempty", guard(|| json!(h.addresses.is_empty())))?;
         put("afsize", guard(|| json!(u16::from(h.address_family()))))?;
+        put("afbl", guard(|| json!(h.address_family().byte_length().map(|n| n as i64).unwrap_or(-1))))?;
         put("tlvs_len", guard(|| json!(h.tlvs().len())))?;
         put("tlvs_empty", guard(|| json!(h.tlvs().is_empty())))?;
         put("tlvs_bytes_eq", guard(|| json!(h.tlvs().as_bytes() == h.tlv_bytes())))?;
